@@ -6,7 +6,7 @@ import ast
 import re as _re
 from typing import Dict, List, Optional
 
-from ..core import has_fact, clone, Unrecognised, Slot, call_name, calls_in, dotted, facts, module_of, parent, qual, site, src, template, walk_local
+from ..core import has_fact, clone, Unrecognised, Slot, call_name, calls_in, dotted, facts, module_of, parent, qual, site, src, template, walk_local, significant_body
 from ..formulas import LANG, PropError, SPEC_TABLES, truth_table
 from ..memo import check_memo_keys
 
@@ -73,6 +73,16 @@ def rule_d1(ctx):
               f"found {src(asg[0].value) if asg else None}", "parentheses are transparent")
 
 
+def has_fact_text(test: ast.expr, text: str) -> bool:
+    """`a == b` in either operand order"""
+    t = " ".join(src(test).split())
+    if t == text:
+        return True
+    if isinstance(test, ast.Compare) and len(test.ops) == 1 and isinstance(test.ops[0], (ast.Eq, ast.Is)):
+        return f"{src(test.comparators[0])} == {src(test.left)}" == text
+    return False
+
+
 def rule_d2(ctx):
     m = ctx.repo.module(LANG, "C08.D2")
     cls = m.get("ISLaEmitter")
@@ -110,7 +120,8 @@ def rule_d2(ctx):
                   f"free nonterminals are closed over the declared constant; this call passes in_var={iv} (the function's default is a fresh start constant)", "in_var=self.constant")
     # get_var maps the constant name to the constant
     f = ctx.repo.func(LANG, "ISLaEmitter.get_var", "C08.D2")
-    ok = isinstance(f.body[0], ast.If) and src(f.body[0].test) == "var_name == self.constant.name" and src(f.body[0].body[0]) == "return self.constant"
+    b0 = (significant_body(f) or [None])[0]
+    ok = isinstance(b0, ast.If) and has_fact_text(b0.test, "var_name == self.constant.name") and src(b0.body[0]) == "return self.constant"
     ctx.check(ok, "D2-default-in", f"{LANG}:ISLaEmitter.get_var", "constant name -> constant", site(f), "get_var must return the declared constant for its name", "constant resolved by name")
     # exitConstDecl builds the constant from ID and VAR_TYPE of the declaration
     f = ctx.repo.func(LANG, "ISLaEmitter.exitConstDecl", "C08.D2")
@@ -147,7 +158,7 @@ def rule_d3(ctx):
     ctx.check(ok, "D3-infix-order", f"{LANG}:ISLaEmitter.exitSexprPrefix", "op first", site(f), "prefix application must start with the operator", "operator first")
     # negative literals: INT token text passed through unchanged
     f = ctx.repo.func(LANG, "ISLaEmitter.exitSexprNum", "C08.D3")
-    asg = [st for st in f.body if isinstance(st, ast.Assign)]
+    asg = [st for st in significant_body(f) if isinstance(st, ast.Assign)]
     ctx.check(len(asg) == 1 and src(asg[0].value) == "antlr_get_text_with_whitespace(ctx)", "D3-literals", f"{LANG}:ISLaEmitter.exitSexprNum", "INT passed through", site(f), "numeric literal text must be passed through", "literal text kept")
 
 
